@@ -422,7 +422,7 @@ func (c *compiler) compile(tok *token) []instruction {
 			}
 			if len(values) > 0 && len(target.Tokens) > 0 {
 				typ := typeFromToken(c, target.Tokens[0])
-				if slices.Contains([]Type{TypeUint8, TypeInt32, TypeFloat64}, typ) {
+				if slices.Contains([]Type{TypeUint8, TypeInt8, TypeUint32, TypeInt32, TypeFloat64}, typ) {
 					res = append(res, instruction{Code: codeCast, A: reg(typ)})
 				}
 			}
